@@ -174,11 +174,11 @@ func (pConn *PFCPConn) handleAssociationSetupRequest(msg message.Message) (messa
 			"with newer recovery timestamp:", ts, "older:", old)
 	}
 
-	pConn.nodeID.remote = nodeID
+	pConn.setRemoteNodeID(nodeID)
 	asres.Cause = ie.NewCause(ie.CauseRequestAccepted)
 
 	logger.PfcpLog.Infoln("association setup done between nodes",
-		"local:", pConn.nodeID.local, "remote:", pConn.nodeID.remote)
+		"local:", pConn.nodeID.local, "remote:", pConn.remoteNodeID())
 
 	return asres, nil
 }
@@ -227,9 +227,9 @@ func (pConn *PFCPConn) handleAssociationSetupResponse(msg message.Message) error
 			"with newer recovery timestamp:", ts, "older:", old)
 	}
 
-	pConn.nodeID.remote = nodeID
+	pConn.setRemoteNodeID(nodeID)
 	logger.PfcpLog.Infoln("association setup done between nodes",
-		"local:", pConn.nodeID.local, "remote:", pConn.nodeID.remote)
+		"local:", pConn.nodeID.local, "remote:", pConn.remoteNodeID())
 
 	return nil
 }
